@@ -6,6 +6,10 @@ import random
 
 import gen_words as G
 
+# Generator profile: names of constructs to avoid (each corresponds to a listed known finding, so
+# that the everyday check does not re-report it through unrelated oracles).
+AVOID: set[str] = set()
+
 WORDS = G.PLAIN + ["the", "quick", "brown", "fox", "jumps", "over", "lazy", "dog", "Hello", "world", "text", "more", "stuff", "sentence", "here", "and", "then", "finally"]
 
 
@@ -15,7 +19,10 @@ def inline(rng: random.Random, depth=0, hazards=True) -> str:
     if r < 0.50:
         return w()
     if r < 0.56 and hazards:
-        return rng.choice(G.HAZARD_WORDS)
+        hz = rng.choice(G.HAZARD_WORDS)
+        if hz.endswith("\\") and "backslash_word" in AVOID:
+            return w()
+        return hz
     if r < 0.60:
         return rng.choice(G.SENT_WORDS)
     if r < 0.64 and depth < 2:
@@ -28,9 +35,15 @@ def inline(rng: random.Random, depth=0, hazards=True) -> str:
         t = inline_seq(rng, rng.randint(1, 2), depth + 1, hazards=False)
         return rng.choice([f"[{t}](http://ex.com/a_b)", f"[{t}](/u \"Title\")", f"[{t}](<u v> 'T t')", f"[{t}][ref]", "[ref]", f"[{t}](u \"a \\\"b\\\" c\")"])
     if r < 0.77:
+        if depth > 0 and "nested_bracket_links" in AVOID:
+            return w()
         return rng.choice(["![alt](img.png)", "![a *b*](i.png \"T\")"])
     if r < 0.79:
-        return rng.choice(["<http://auto.link/x>", "http://bare.url/p?q=1", "<b>", "</b>", "<br/>", "<span class=\"x y\">"])
+        if "bare_url" in AVOID:
+            return rng.choice(["<http://auto.link/x>", "<b>", "</b>", "<br/>"])
+        if "html_block_words" in AVOID:
+            return rng.choice(["<http://auto.link/x>", "http://bare.url/p?q=1", "<b>", "</b>", "<br/>", "<span class=\"x y\">"])
+        return rng.choice(["<http://auto.link/x>", "http://bare.url/p?q=1", "<b>", "</b>", "<br/>", "<span class=\"x y\">", "<div>", "</p>"])
     if r < 0.82:
         return rng.choice(["\\*", "\\.", "1\\.", "\\#", "\\_x\\_", "\\[", "\\>", "a\\.b"])
     if r < 0.84:
@@ -40,6 +53,8 @@ def inline(rng: random.Random, depth=0, hazards=True) -> str:
     if r < 0.90:
         return rng.choice(G.QUOTES)
     if r < 0.93:
+        if "tags_in_prose" in AVOID:
+            return w()
         return rng.choice(G.TAGS)
     if r < 0.95:
         return rng.choice(["日本語", "中文abc", "x漢字", "é", "—"])
@@ -53,6 +68,8 @@ def inline_seq(rng, n, depth=0, hazards=True) -> str:
 def para_lines(rng, hazards=True) -> list[str]:
     n = rng.choice([1, 2, 4, 7, 12, 20, 35])
     toks = [inline(rng, 0, hazards) for _ in range(n)]
+    if "marker_first_word" in AVOID:
+        toks[0] = inline(rng, 0, False)
     lines, cur = [], ""
     for i, t in enumerate(toks):
         if cur and rng.random() < 0.18:
@@ -61,6 +78,8 @@ def para_lines(rng, hazards=True) -> list[str]:
                 cur += "\\"
             elif r < 0.3:
                 cur += "  "
+            if r < 0.3 and "marker_first_word" in AVOID:
+                t = inline(rng, 0, False)      # the word after a hard break heads a segment
             lines.append(cur)
             cur = t
         else:
@@ -105,7 +124,7 @@ def block(rng: random.Random, depth=0) -> list[str]:
         loose = rng.random() < 0.4
         start = rng.choice([1, 1, 2, 7, 10, 0])
         bullet = rng.choice(["-", "*", "+"])
-        delim = rng.choice([".", ")"])
+        delim = "." if "mixed_ordered_delims" in AVOID else rng.choice([".", ")"])
         out = []
         for i in range(rng.randint(1, 4)):
             marker = f"{start + i}{delim} " if ordered else bullet + " "
@@ -140,13 +159,21 @@ def block(rng: random.Random, depth=0) -> list[str]:
         rows = ["| " + " | ".join(rng.choice([inline(rng, 1, False).replace("|", "\\|"), "`a\\|b`", "", "x \\| y"]) for _ in range(ncol)) + " |" for _ in range(rng.randint(0, 3))]
         return [head, delim] + rows
     if r < 0.80:
+        if depth > 0 and "break_in_list" in AVOID:
+            return para_lines(rng, hazards=False)
         return [rng.choice(["---", "***", "* * *", "___", "- - -", "_ _ _ _"])]
     if r < 0.86:
+        if depth > 0 and "refdef_in_container" in AVOID:
+            return para_lines(rng, hazards=False)
         return [rng.choice(["[ref]: http://ex.com/ref", "[ref]: /u \"Title\"", "[r2]: <u v> 'T'", "[r3]: /x (paren title)", "[Ref Two]: http://x.y \"q \\\"i\\\" r\""])]
     if r < 0.90:
+        if depth > 0 and "footnote_in_container" in AVOID:
+            return para_lines(rng, hazards=False)
         ls = para_lines(rng, hazards=False)
         return ["[^fn]: " + ls[0]] + ["    " + l for l in ls[1:]] + ([""] + ["    " + l for l in para_lines(rng, False)] if rng.random() < 0.3 else [])
     if r < 0.95:
+        if depth > 0 and "tags_in_containers" in AVOID:
+            return para_lines(rng, hazards=False)
         tag, close = rng.choice([("{% field %}", "{% /field %}"), ("<!-- a -->", "<!-- /a -->"), ("{# x #}", "{# /x #}")])
         inner = rng.choice([["- i1", "- i2"], ["| a | b |", "|---|---|", "| 1 | 2 |"], para_lines(rng, False), ["1. x", "2. y"]])
         b1, b2 = rng.choice([[], [""]]), rng.choice([[], [""]])
